@@ -42,7 +42,13 @@ func exactOf(v model.Val) (*big.Rat, string) {
 	switch v.T {
 	case "jsonnum":
 		return exactOf(model.Str(v.S))
-	case "int", "int8", "int16", "int32", "int64", "uint", "uint8", "uint16", "uint32", "uint64":
+	case "bigfloat":
+		r, ok := new(big.Rat).SetString(v.S)
+		if !ok {
+			panic("bad bigfloat payload")
+		}
+		return r, "rat"
+	case "int", "int8", "int16", "int32", "int64", "uint", "uint8", "uint16", "uint32", "uint64", "cents", "level":
 		r, ok := new(big.Rat).SetString(v.S)
 		if !ok {
 			panic("bad int payload")
@@ -343,6 +349,14 @@ func c18Cells(yield0 func(c18Case)) {
 			}
 			yield(c18Case{Kind: kind, In: model.Str(s)})
 			yield(c18Case{Kind: kind, In: model.Str(s), InMap: true})
+			if fits(b, 62, true) {
+				// numeric user types that print themselves differently from the number they hold
+				yield(c18Case{Kind: kind, In: model.Val{T: "cents", S: s}})
+				yield(c18Case{Kind: kind, In: model.Val{T: "level", S: s}})
+				yield(c18Case{Kind: kind, In: model.Val{T: "cents", S: s}, InMap: true})
+			}
+			yield(c18Case{Kind: kind, In: model.Val{T: "bigfloat", S: s + ".5"}})
+			yield(c18Case{Kind: kind, In: model.Val{T: "bigfloat", S: s}})
 			yield(c18Case{Kind: kind, In: model.Val{T: "jsonnum", S: s}})
 			yield(c18Case{Kind: kind, In: model.Val{T: "jsonnum", S: s}, InMap: true})
 			yield(c18Case{Kind: kind, In: model.Val{T: "jsonnum", S: s + ".5"}, InMap: true})
